@@ -115,7 +115,7 @@ func c19Pool(c *vrep.Ctx) {
 				msg = fmt.Sprintf("%d errors reported, %d files are unreadable", len(errs), unreadable)
 			}
 		}
-		r.Note = map[string]interface{}{"msg": msg, "steps": s.Steps, "switches": s.Switches, "enabled": s.MaxEnabled}
+		r.Note = map[string]interface{}{"msg": msg, "steps": s.Steps, "switches": s.Switches, "enabled": s.MaxEnabled, "obs": fmt.Sprintf("%v|%d|%d|%s", renderResults(b), s.Steps, s.Switches, msg)}
 	}
 	e := c.Explorer(budget)
 	e.SplitDepth = c.ParamInt("split", 6)
